@@ -243,11 +243,56 @@ def task_order():
 task_order.contract_fn = "curves.Curve.degree_increase"
 
 
+# --------------------------------------------------------------------------------------
+# engine B: degree_decrease(t, None) is the CONSTRAINED BEST approximation: it keeps the values at the remaining knots and its residual is L2-orthogonal to every
+# lower-degree spline that vanishes at those knots - on knot vectors with spans of UNEQUAL length and interior knots that stay
+# --------------------------------------------------------------------------------------
+def task_best_approximation():
+    fn = "curves.Curve.degree_decrease"
+    out = []
+    cases = {"cubic-unequal": ([F(0)] * 4 + [F(1), F(1)] + [F(4)] * 4, 3, 1), "quartic-unequal": ([F(-1)] * 5 + [F(0), F(0), F(0), F(5, 2)] + [F(3)] * 5, 4, 1),
+             "cubic-by-2": ([F(0)] * 4 + [F(1, 2), F(1, 2), F(1, 2), F(3), F(3), F(3)] + [F(5)] * 4, 3, 2)}
+    for name, (U, p, t) in cases.items():
+        n = len(U) - p - 1
+        P = [F((-1) ** i * (i * i + 1), i + 2) for i in range(n)]
+        bad = None
+        try:
+            c = curves.Curve(list(U), list(P))
+            c.degree_decrease(t, None)
+            V, q = [F(x) for x in c.knotvector], c.degree
+            Q = list(c.ctrlpoints)
+            m = len(V) - q - 1
+            if q != p - t:
+                bad = "degree %d, expected %d" % (q, p - t)
+            else:
+                nodes = sorted(set(V))
+                for z in nodes:
+                    if spec.curve_value(V, q, Q, z) != spec.curve_value(list(U), p, P, z):
+                        bad = "value at the remaining knot %s changed" % z
+                        break
+            if not bad:
+                Gtt, Gts = spec.gram(V, q, V, q), spec.gram(V, q, list(U), p)
+                Mv = [sum(Gtt[i][j] * Q[j] for j in range(m)) - sum(Gts[i][j] * P[j] for j in range(n)) for i in range(m)]
+                At = spec.collocation(V, q, nodes)
+                NS = spec.null_space(At, m)
+                if any(sum(v[i] * Mv[i] for i in range(m)) != 0 for v in NS):
+                    bad = "the residual is not L2-orthogonal to the %d-dimensional space of degree-%d splines vanishing at the remaining knots: not the constrained best approximation" % (len(NS), q)
+        except Exception as e:
+            bad = "%s: %s" % (type(e).__name__, str(e)[:100])
+        out.append(ob("%s:none-best-approximation[%s]" % (fn, name), fn, FAILED if bad else PROVED, "B", "concrete", 0.0,
+                      bad or "keeps the values at the remaining knots; residual orthogonal to the constrained space (exact Gram matrices)",
+                      dict(kind="c06.best", case=name) if bad else None))
+    return out + [{"_stats": dict(cases=len(out))}]
+
+
+task_best_approximation.contract_fn = "curves.Curve.degree_decrease"
+
+
 def tasks(tier, seed):
     from ..pyvc.driver import verify
     from ..contracts import misc
     from ..contracts import curvesv
-    ts = [(verify, (misc.BEZIER_ONCE, "heavy", "Operations.degree_increase_bezier_once", None)), (task_order, ())]
+    ts = [(verify, (misc.BEZIER_ONCE, "heavy", "Operations.degree_increase_bezier_once", None)), (task_order, ()), (task_best_approximation, ())]
     # shape-level contracts (all curves, all arguments): degree +- t, INV, refusals atomic; degree setter dispatches to them
     ts += [(verify, (c, m, q, v)) for c, m, q, v in curvesv.ALL if q in ("Curve.degree_increase", "Curve.degree_decrease", "BaseCurve.degree", "BaseCurve.apply")]
     for sh in tier_shapes(tier):
@@ -264,6 +309,9 @@ def tasks(tier, seed):
 
 
 def replay(o):
+    if (o.get("witness") or {}).get("kind") == "c06.best":
+        r = [x for x in task_best_approximation() if "id" in x and x["id"].endswith("[%s]" % o["witness"]["case"])][0]
+        return r["status"] == FAILED, "constrained best approximation", r["detail"]
     if (o.get("witness") or {}).get("kind") == "kinds":
         from . import kinds
         return kinds.replay(o)
